@@ -873,11 +873,12 @@ def _check_pcm(case, ctx):
     while j < p and (S[j - 1] - S[j]) < 1e-3 * S[j - 1]:
         j += 1
     Uj = U[:, :j]
-    tolj = 1e-11 if j == p else 1e-11 * float(S[j - 1] / (S[j - 1] - S[j]))
+    # a singular subspace is determined up to eps * |A| / (absolute gap)
+    tolj = 1e-11 if j == p else 1e-11 * nrm / float(S[j - 1] - S[j])
     ctx.close("pcm_in_dominant_span",
               _amax(out - Uj.dot(_H(Uj).dot(out))) / nrm, tolj, "", tags)
     if gap_k >= 1e-3:
-        tolk = 1e-11 / min(gap_k, 1.0)
+        tolk = 1e-11 if k == p else 1e-11 * nrm / float(S[k - 1] - S[k])
         # = first k columns of the best rank-k approximation of A
         Ak = (U[:, :k] * S[:k]).dot(V_H[:k, :])
         ctx.close("pcm_vs_truncated_svd", _amax(out - Ak[:, :k]) / nrm, tolk,
